@@ -370,7 +370,7 @@ def run_replicator(ck, prop, tier, dag, cancels, n_sim, depth):
         if ('Cancel' in acts) or (dag in 'BCDE' and 'JoinBatch' in acts):
             ck.distinct.add(vlib.beh_signature(b))
     inp = {'property': prop, 'seed': SEED, 'dag': dag, 'req_heads': d['jh'], 'nreq': 3, 'bad': d['jbad'], 'abort': [6] if dag == 'C' else [], 'links': d['jl'],
-           'behaviours': bs, 'mutant': mutants}
+           'behaviours': bs, 'mutant': mutants, 'long_outage_s': 25 if (thorough and prop == 'C11') else 0}
     res = vlib.run_vh('replicator', inp, tag='%s-rp-%s' % (prop, dag), timeout=600 if tier == 'quick' else 3000)
     allv = res.get('violations', [])
     res['violations'] = [v for v in allv if v['kind'] in RP_KINDS[prop]]
@@ -386,12 +386,25 @@ def run_replicator(ck, prop, tier, dag, cancels, n_sim, depth):
     return res
 
 
+
+def loadpath_model(ck, prop):
+    """spec/LoadPath.tla: loads of one instance one after the other; the pinned Join-only variant must be refuted."""
+    def cfg(fill):
+        return ('LoadPath.cfg', 'SPECIFICATION Spec\nCONSTANTS N = 6 FillBelow = %s\nINVARIANTS FullLoadsEverything\nCHECK_DEADLOCK FALSE\n' % ('TRUE' if fill else 'FALSE'))
+    r = vlib.tlc_check('LoadPath.tla', cfg(True), prop + '-loadpath')
+    ck.require_model_ok(r, 'LoadPath: a complete unlimited load makes everything visible whatever was loaded before')
+    m = vlib.tlc_check('LoadPath.tla', cfg(False), prop + '-loadpath-mutant')
+    ck.add_tlc(m, 'LoadPath with Join only (mutant specification)')
+    if m.get('violated') != 'FullLoadsEverything':
+        ck.inconclusive.append('mutant specification (LoadPath, Join only) not refuted by TLC: vacuity guard failed')
+
 def c11(prop, tier):
     ck = Check(prop, tier)
     thorough = tier == 'thorough'
     ck.rule = ('behaviours of spec/Replicator.tla (3 requests over a chain with refs and a fork, workers gated before the semaphore, '
                'before and after the fetch; Cancel at any step) forced on a real store, then run to rest and the final uncancelled '
                'request issued again; non-trivial = behaviour containing a Cancel')
+    loadpath_model(ck, prop)
     run_replicator(ck, prop, tier, 'A', 2, 100 if thorough else 16, 40)
     return ck.finish()
 
